@@ -279,6 +279,7 @@ func c10Session(args []string, _ []byte) string {
 		}
 	}
 	peer := make(chan string, 1)
+	written := make(chan struct{}) // closed once the raw peer has written everything it was going to write
 	go func() {
 		c, err := ln.Accept()
 		if err != nil {
@@ -382,6 +383,7 @@ func c10Session(args []string, _ []byte) string {
 		if !flush() {
 			return
 		}
+		close(written)
 		// keep the connection open until the client is done
 		time.Sleep(50 * time.Millisecond)
 		_, _ = l.readEnvelope()
@@ -510,6 +512,17 @@ func c10Session(args []string, _ []byte) string {
 	handlerMu.Unlock()
 	if hs != strings.Join(evs, ",") {
 		return fmt.Sprintf("FAIL: event handlers saw [%s], the event channel delivered %v", hs, evs)
+	}
+	// the client has seen everything it expects; trailing frames it does not wait for (spurious responses) may still be
+	// on their way: let the peer finish writing before the connection is closed under it
+	select {
+	case <-written:
+	case p := <-peer:
+		if p != "" {
+			return "FAIL: " + p
+		}
+	case <-time.After(T):
+		return "FAIL: harness: raw server did not finish writing"
 	}
 	_ = cc.Close()
 	select {
